@@ -344,9 +344,12 @@ async def worker(
             )
 
             # With every new PATCH API call (if done), restart the consistency waiting.
+            # Except for the patches that changed nothing: the version they return is the one that
+            # has just been processed; it never comes again, so there is nothing to wait for.
             if newer_patch_version is not None and settings.persistence.consistency_timeout:
-                expected_version = newer_patch_version
-                consistency_time = loop.time() + settings.persistence.consistency_timeout
+                if newer_patch_version != get_version(raw_event):
+                    expected_version = newer_patch_version
+                    consistency_time = loop.time() + settings.persistence.consistency_timeout
 
     except Exception:
         # Log the error for every worker: there can be several of them failing at the same time,
